@@ -635,10 +635,29 @@ def krome_reset(ctx, pkg, rule="R4"):
             par = _parents(fn)
             conds = []
             x = init_calls[0]
+            # a condition cached in a local (`from_string = not isinstance(..)`, assigned once) is that condition
+            once = {}
+            for a_ in ast.walk(fn):
+                if isinstance(a_, ast.Name) and isinstance(a_.ctx, ast.Store):
+                    once[a_.id] = once.get(a_.id, 0) + 1
+            local_val = {a_.targets[0].id: a_.value for a_ in ast.walk(fn) if isinstance(a_, ast.Assign) and len(a_.targets) == 1
+                         and isinstance(a_.targets[0], ast.Name) and once.get(a_.targets[0].id) == 1}
+
+            def cond_text(t):
+                if recv in {n_.id for n_ in ast.walk(t) if isinstance(n_, ast.Name)}:
+                    return ast.unparse(t)          # a test of the format class itself
+                for _ in range(3):
+                    if isinstance(t, ast.Name) and t.id in local_val:
+                        t = local_val[t.id]
+                    elif isinstance(t, ast.UnaryOp) and isinstance(t.op, ast.Not) and isinstance(t.operand, ast.Name) and t.operand.id in local_val:
+                        t = ast.UnaryOp(op=ast.Not(), operand=local_val[t.operand.id])
+                    else:
+                        break
+                return ast.unparse(t)
             while x in par:
                 p_ = par[x]
                 if isinstance(p_, ast.If) and x is not p_.test:
-                    conds.append(ast.unparse(p_.test))
+                    conds.append(cond_text(p_.test))
                 if isinstance(p_, (ast.For, ast.While)):
                     conds.append("<loop>")
                 x = p_
